@@ -294,9 +294,26 @@ def drive(ctx, strategy, body, max_examples, salt='', rounds=5, shrink=True):
         except (herrors.FailedHealthCheck, herrors.Unsatisfiable) as ex:
             raise HarnessError(f'{ctx.prop}/{ctx.task}/{salt}: generator unhealthy: {ex}')
         except herrors.Flaky as ex:
+            if _history_dependent(ctx):
+                continue
             # an oracle that is not a function of its input is a harness defect, not a finding
             raise HarnessError(f'{ctx.prop}/{ctx.task}/{salt}: flaky: {ex}')
         break
+
+
+def _history_dependent(ctx):
+    """Hypothesis calls a failure flaky when the same example passes on re-execution. The oracles here are pure functions
+    of the case, so if a disagreement was recorded the code under test answered differently for the same input depending on
+    what was called before it in this process - which is itself a violation of a for-every-input property. The recorded
+    case is reported (marked history-dependent: it need not reproduce when replayed alone)."""
+    if ctx._last is None:
+        return False
+    sig, case, msg = ctx._last
+    ctx.report(sig + ':history-dependent', case, msg + ' [the same input passed when re-executed: the outcome depends on earlier calls in '
+               'the same process, so the saved case may not reproduce when replayed alone]')
+    ctx.excluded.add(sig)
+    ctx._last = None
+    return True
 
 
 def drive_machine(ctx, machine_factory, max_examples, steps, salt='', rounds=4, shrink=True):
@@ -320,6 +337,8 @@ def drive_machine(ctx, machine_factory, max_examples, steps, salt='', rounds=4, 
         except (herrors.FailedHealthCheck, herrors.Unsatisfiable) as ex:
             raise HarnessError(f'{ctx.prop}/{ctx.task}/{salt}: generator unhealthy: {ex}')
         except herrors.Flaky as ex:
+            if _history_dependent(ctx):
+                continue
             raise HarnessError(f'{ctx.prop}/{ctx.task}/{salt}: flaky: {ex}')
         break
 
